@@ -437,7 +437,13 @@ def b09(ctx, orc):
         if [x.index for x in ua] != [x.index for x in lat.upset_union([a, b])] or \
                 [x.index for x in ub] != [x.index for x in lat.downset_union([b, a])]:
             fails.append(f'upset_union/downset_union of {a.extent!r}, {b.extent!r} advanced in lockstep differ from a lone traversal')
-    for ms in _multisets(cs, cap=250):
+    # large seed collections: everything, every level of equal extent size (antichains), with repeats, reversed
+    levels = {}
+    for c in cs:
+        levels.setdefault(len(c.extent), []).append(c)
+    big = [list(cs), list(reversed(cs)), cs[::2] + cs[::3]] + [lv for lv in levels.values() if len(lv) > 2] + \
+        [lv[::-1] + lv[:1] for lv in levels.values() if len(lv) > 3]
+    for ms in big + _multisets(cs, cap=250):
         es = [ext[id(c)] for c in ms]
         for form in (list(ms), iter(list(ms))):
             up = list(lat.upset_union(form))
